@@ -39,7 +39,7 @@ def plan(tier, seed):
     n = 5 if tier == "quick" else 90
     cases = []
     for k in range(n):
-        for kind in ("base", "base-mono", "base-complex", "square", "sq-conj-int", "mul-int", "multiply", "index", "zero-boundary", "tiny-exp"):
+        for kind in ("base", "base-mono", "base-complex", "square", "sq-conj-int", "mul-int", "multiply", "index", "zero-boundary", "tiny-exp", "partly-frozen"):
             cases.append({"kind": kind, "k": k, "seed": seed})
     cases.append({"kind": "gradcheck", "k": 0, "seed": seed})
     return cases
@@ -86,6 +86,12 @@ def build(case):
         cfg = gen.GenCfg(**small, monotonic=True, weight_kinds=("exp",), kinds=("embedding", "cat"), mixing_prob=0.0)
         sc, meta = gen.gen_circuit(rng, cfg)
         return rng, sc, meta["domains"], "complex-lse-sum", False
+    if kind == "partly-frozen":
+        # frozen and learnable plain tensors of equal shapes side by side (they must not share a fold)
+        cfg = gen.GenCfg(nvars=rng.randint(2, 4), max_units=2, max_reps=1, out_units=2, outputs=1, kinds=("embedding", "cat"), weight_kinds=("raw", "frozen"),
+                         mixing_prob=0.0, structured=True, leaf_sum_prob=0.8)
+        sc, meta = gen.gen_circuit(rng, cfg)
+        return rng, sc, meta["domains"], rng.choice(["sum-product", "complex-lse-sum"]), mono
     if kind == "zero-boundary":
         cfg = gen.GenCfg(**small, kinds=("embedding", "cat"), cat_modes=("logits", "probs_softmax"))
         sc, meta = gen.gen_circuit(rng, cfg)
